@@ -99,6 +99,10 @@ def p1_programs():
     for l in lefts:
         for r in rights:
             out.append(["==", l, r])
+    for rx in ("/a.c/", "/^[0-9]+$/", "/b+/", "/(x|1)0/", "/\\./", "/^A/"):
+        out.append(fn("regex", [], [T(rx), A]))
+        out.append(fn("exact", [], [T(rx), A]))
+    out += [fn("all", [], [A, B]), fn("missing", [], [A, B]), fn("all", [], [A, B, ABSENT]), fn("missing", [], [B, A1])]
     out += [fn("int", [], [A]), fn("float", [], [A]), fn("int", [], [B]), fn("starts_with", [], [A, T("a")]), fn("starts_with", [], [A, B]), fn("starts_with", [], [B, T("1")])]
     out += [["->", ["==", A, T("1")], ["=", ["v", "w"], [], B]], ["=", ["v", "w"], [], A], ["=", ["v", "w"], ["notnone"], ABSENT]]
     res = []
